@@ -63,11 +63,17 @@ const (
 	// expressionPrecedenceMultiplication is the expressionPrecedence of
 	// - BinaryExpression, with OperationMul, OperationMod, or OperationDiv
 	expressionPrecedenceMultiplication
+	// expressionPrecedenceMove is the expressionPrecedence of
+	// - UnaryExpression, with OperationMove:
+	//   the parser binds the move prefix operator weaker than casting,
+	//   i.e. `<- x as T` is `<- (x as T)`
+	expressionPrecedenceMove
 	// expressionPrecedenceCasting is the expressionPrecedence of
 	// - CastingExpression
 	expressionPrecedenceCasting
 	// expressionPrecedenceUnaryPrefix is the expressionPrecedence of
-	// - UnaryExpression
+	// - UnaryExpression, except for OperationMove
+	// - IntegerExpression and FixedPointExpression, if negative
 	// - CreateExpression
 	// - DestroyExpression
 	// - ReferenceExpression
